@@ -157,6 +157,21 @@ def report(ctx, site, case, ev, raster, G, S):
     return False
 
 
+def sys_changed(ctx, site, case, sys_, snap):
+    """constructors must leave the system object they are given (and the library default) untouched"""
+    now = dict(vars(sys_))
+    diff = {k: [snap.get(k), now.get(k)] for k in set(snap) | set(now) if snap.get(k) != now.get(k)}
+    if diff:
+        ctx.fail('C04/%s/system-modified' % site, case, {'changed': {k: [repr(a), repr(b)] for k, (a, b) in diff.items()}})
+        return True
+    return False
+
+
+def default_snapshot():
+    import pypulseq as pp
+    return dict(vars(pp.Opts.default))
+
+
 def nonzero(ev):
     if ev.type == 'trap':
         return ev.amplitude != 0
@@ -245,6 +260,7 @@ def gen_ext(rng):
 def run_ext(ctx, case):
     import pypulseq as pp
     sys_ = system_from_desc(case['sys'])
+    snap = dict(vars(sys_))
     r = case['sys']['raster']
     try:
         g = pp.make_extended_trapezoid('x', amplitudes=np.array(case['amps'], dtype=float), times=np.array(case['times'], dtype=float),
@@ -252,6 +268,7 @@ def run_ext(ctx, case):
         res = ('OK', g)
     except Exception as e:  # noqa: BLE001
         res = ('ERR', classify(e))
+    sys_changed(ctx, 'make_extended_trapezoid', case, sys_, snap)
     G = case['max_grad'] if case['max_grad'] > 0 else sys_.max_grad
     S = case['max_slew'] if case['max_slew'] > 0 else sys_.max_slew
     ok = True
@@ -307,6 +324,13 @@ def gen_arb(rng, kf=False):
     Ge = mg if mg else G
     Se = ms if ms else S
     w = [level(rng, Ge) * 0.8 if rng.random() < 0.5 else 0.0]
+    if rng.random() < 0.15 and n >= 5:
+        # a flat waveform with ONE isolated step between 1x and 2x the slew limit (central differences would halve it)
+        base = rng.choice([0.0, 0.3 * Ge, -0.3 * Ge])
+        k0 = rng.randint(2, n - 2)
+        stepv = Se * r * rng.choice([1.2, 1.5, 1.9, 0.9]) * rng.choice([1, -1])
+        w = [base] * k0 + [base + stepv] * (n - k0)
+        n = 0
     for _ in range(n - 1):
         step = Se * r * rng.choice([0, 0.5, 0.9, 0.999, 1.0, 1.001, 1.3, rng.uniform(0, 1)]) * rng.choice([1, -1])
         a = w[-1] + step
@@ -321,6 +345,7 @@ def gen_arb(rng, kf=False):
         first = max(-Ge, min(Ge, first))
         last = w[-1] + rng.uniform(-0.45, 0.45) * Se * r
         last = max(-Ge, min(Ge, last))
+    n = len(w)
     case = {'site': 'arb', 'kind': 'valid-mostly', 'sys': sd, 'wave': w, 'first': first, 'last': last,
             'delay': rng.choice([0.0, 10 * r]), 'max_grad': mg, 'max_slew': ms}
     if first is None and n >= 2:
@@ -335,6 +360,7 @@ def gen_arb(rng, kf=False):
 def run_arb(ctx, case):
     import pypulseq as pp
     sys_ = system_from_desc(case['sys'])
+    snap = dict(vars(sys_))
     r = case['sys']['raster']
     try:
         g = pp.make_arbitrary_grad('y', np.array(case['wave'], dtype=float), first=case['first'], last=case['last'],
@@ -342,6 +368,7 @@ def run_arb(ctx, case):
         res = ('OK', g)
     except Exception as e:  # noqa: BLE001
         res = ('ERR', classify(e))
+    sys_changed(ctx, 'make_arbitrary_grad', case, sys_, snap)
     G = case['max_grad'] if case['max_grad'] else sys_.max_grad
     S = case['max_slew'] if case['max_slew'] else sys_.max_slew
     ok = True
@@ -410,12 +437,15 @@ def gen_trap(rng):
 def run_trap(ctx, case):
     import pypulseq as pp
     sys_ = system_from_desc(case['sys'])
+    snap = dict(vars(sys_))
     kw = dict(case['kw'])
     try:
         g = pp.make_trapezoid(channel='z', system=sys_, **kw)
     except Exception:  # noqa: BLE001
         ctx.count('trap.rejected')
+        sys_changed(ctx, 'make_trapezoid', case, sys_, snap)
         return None
+    sys_changed(ctx, 'make_trapezoid', case, sys_, snap)
     G = kw.get('max_grad') or sys_.max_grad
     S = kw.get('max_slew') or sys_.max_slew
     report(ctx, 'make_trapezoid', case, g, case['sys']['raster'], G, S)
@@ -435,11 +465,13 @@ def gen_eta(rng):
 def run_eta(ctx, case):
     import pypulseq as pp
     sys_ = system_from_desc(case['sys'])
+    snap = dict(vars(sys_))
     try:
         g, _, _ = pp.make_extended_trapezoid_area(channel='x', grad_start=case['gs'], grad_end=case['ge'], area=case['area'], system=sys_)
     except Exception:  # noqa: BLE001
         ctx.count('eta.rejected')
         return None
+    sys_changed(ctx, 'make_extended_trapezoid_area', case, sys_, snap)
     report(ctx, 'make_extended_trapezoid_area', case, g, case['sys']['raster'], sys_.max_grad, sys_.max_slew)
     return g
 
@@ -469,6 +501,8 @@ def some_grad(rng, sys_, r, ch, frac=None):
 def run_split(ctx, rng, k):
     import pypulseq as pp
     sys_, sd = rand_system(rng)
+    snap = dict(vars(sys_))
+    dsnap = default_snapshot()
     r = sd['raster']
     G, S = sys_.max_grad, sys_.max_slew
     tramp = math.ceil(G / S / r) * r
@@ -491,6 +525,7 @@ def run_split(ctx, rng, k):
     except Exception as e:  # noqa: BLE001
         ctx.count('split.raised')
         case['raised'] = repr(e)[:100]
+    sys_changed(ctx, case.get('fn', 'split'), case, sys_, snap)
     ctx.evaluated(('split', k, case.get('fn'), amp, flat, delay, case.get('time_point')), nontrivial=bool(parts))
     for p in parts:
         report(ctx, case['fn'], case, p, r, G, S)
@@ -499,6 +534,8 @@ def run_split(ctx, rng, k):
 def run_rotate(ctx, rng, k):
     import pypulseq as pp
     sys_, sd = rand_system(rng)
+    snap = dict(vars(sys_))
+    dsnap = default_snapshot()
     r = sd['raster']
     axis = rng.choice('xyz')
     others = [c for c in 'xyz' if c != axis]
@@ -518,6 +555,7 @@ def run_rotate(ctx, rng, k):
         ctx.count('rotate.raised')
         ctx.evaluated(('rotate', k), nontrivial=False)
         return
+    sys_changed(ctx, 'rotate', case, sys_, snap)
     ctx.evaluated(('rotate', k, axis, angle, tuple(desc)), nontrivial=len(evs) > 0)
     for g in out:
         if getattr(g, 'type', None) in ('trap', 'grad'):
@@ -527,6 +565,8 @@ def run_rotate(ctx, rng, k):
 def run_add(ctx, rng, k):
     import pypulseq as pp
     sys_, sd = rand_system(rng)
+    snap = dict(vars(sys_))
+    dsnap = default_snapshot()
     r = sd['raster']
     n = rng.randint(1, 3)
     f = rng.choice([0.3, 0.5, 0.7, 1.0])
@@ -550,6 +590,7 @@ def run_add(ctx, rng, k):
         ctx.count('add.raised')
         ctx.evaluated(('add', k), nontrivial=True)
         return
+    sys_changed(ctx, 'add_gradients', case, sys_, snap)
     ctx.evaluated(('add', k, n, f, tuple(sorted(kw.items()))), nontrivial=True)
     report(ctx, 'add_gradients', case, out, r, kw.get('max_grad', sys_.max_grad), kw.get('max_slew', sys_.max_slew))
 
@@ -557,6 +598,8 @@ def run_add(ctx, rng, k):
 def run_rfgz(ctx, rng, k):
     import pypulseq as pp
     sys_, sd = rand_system(rng)
+    snap = dict(vars(sys_))
+    dsnap = default_snapshot()
     sd['rf_dead_time'], sd['rf_ringdown_time'] = sys_.rf_dead_time, sys_.rf_ringdown_time
     r = sd['raster']
     maker = rng.choice(['sinc', 'gauss', 'arb'])
@@ -564,10 +607,10 @@ def run_rfgz(ctx, rng, k):
     thick = rng.choice([1e-3, 3e-3, 5e-3, 0.2e-3, 20e-3])
     tbw = rng.choice([2, 4, 8])
     kw = {}
-    if rng.random() < 0.3:
-        kw['max_grad'] = sys_.max_grad * 0.5
-    if rng.random() < 0.3:
-        kw['max_slew'] = sys_.max_slew * 0.5
+    if rng.random() < 0.4:
+        kw['max_grad'] = sys_.max_grad * rng.choice([0.5, 2.0])
+    if rng.random() < 0.4:
+        kw['max_slew'] = sys_.max_slew * rng.choice([0.5, 2.0])
     case = {'site': 'rfgz', 'kind': maker, 'sys': sd, 'duration': dur, 'thickness': thick, 'tbw': tbw, 'kw': kw}
     ctx.count('stream.rfgz.' + maker)
     try:
@@ -583,10 +626,69 @@ def run_rfgz(ctx, rng, k):
         ctx.count('rfgz.raised')
         ctx.evaluated(('rfgz', k), nontrivial=True)
         return
+    sys_changed(ctx, 'rf_maker', case, sys_, snap)
+    import pypulseq as _pp
+    if dict(vars(_pp.Opts.default)) != dsnap:
+        ctx.fail('C04/rf_maker/default-system-modified', case, {})
+    # a constructor called afterwards on the SAME system object must still be held to the system's limits
+    try:
+        g2 = pp.make_trapezoid('x', area=sys_.max_grad * 2e-4, system=sys_)
+        report(ctx, 'make_trapezoid_after_rf_maker', case, g2, r, snap['max_grad'], snap['max_slew'])
+    except Exception:  # noqa: BLE001
+        pass
     ctx.evaluated(('rfgz', k, maker, dur, thick, tbw, tuple(sorted(kw.items()))), nontrivial=True)
     for g in out[1:]:
         if getattr(g, 'type', None) == 'trap':
             report(ctx, 'rf_slice_gradient', case, g, r, kw.get('max_grad', sys_.max_grad), kw.get('max_slew', sys_.max_slew))
+
+
+def run_default_system(ctx, rng, k):
+    """the library default is replaced by a TIGHTER system (Opts.set_as_default); constructors called WITHOUT a system
+    argument must hold their results to the current default, not to the one that was current at import time"""
+    import pypulseq as pp
+    old = pp.Opts.default
+    gamma = 42.576e6
+    mg_mT, ms_T = rng.choice([8, 10, 20]), rng.choice([40, 60, 100])
+    raster = rng.choice([10e-6, 20e-6])
+    new = pp.Opts(max_grad=mg_mT, grad_unit='mT/m', max_slew=ms_T, slew_unit='T/m/s', grad_raster_time=raster)
+    G, S, r = new.max_grad, new.max_slew, raster
+    sd = {'gamma': gamma, 'raster': r, 'max_grad': G, 'grad_unit': 'Hz/m', 'max_slew': S, 'slew_unit': 'Hz/m/s'}
+    case = {'site': 'default', 'kind': 'set_as_default', 'sys': sd, 'index': k}
+    ctx.count('stream.default_system')
+    # amplitudes/slopes that the import-time default (40 mT/m, 170 T/m/s) would admit but the new default must not
+    big = 30e-3 * gamma * rng.choice([1, -1])
+    tramp_old = math.ceil(abs(big) / (150 * gamma) / r) * r
+    calls = []
+    try:
+        new.set_as_default()
+        calls = [
+            ('make_trapezoid', lambda: pp.make_trapezoid('x', amplitude=big, flat_time=20 * r, rise_time=tramp_old)),
+            ('make_trapezoid', lambda: pp.make_trapezoid('y', area=big * 40 * r)),
+            ('make_extended_trapezoid', lambda: pp.make_extended_trapezoid('x', amplitudes=np.array([0, big, big, 0.0]),
+                                                                            times=np.array([0, tramp_old, tramp_old + 20 * r, 2 * tramp_old + 20 * r]))),
+            ('make_arbitrary_grad', lambda: pp.make_arbitrary_grad('z', big * np.sin(np.linspace(0, math.pi, 400)[1:-1]), first=0.0, last=0.0)),
+            ('make_extended_trapezoid_area', lambda: pp.make_extended_trapezoid_area(channel='x', grad_start=0.0, grad_end=0.0, area=big * 60 * r)[0]),
+            ('split_gradient_at', lambda: pp.split_gradient_at(
+                pp.make_trapezoid('x', amplitude=big, flat_time=20 * r, rise_time=tramp_old, system=old), tramp_old + 10 * r)),
+            ('add_gradients', lambda: pp.add_gradients([pp.make_trapezoid('x', amplitude=big / 2, flat_time=20 * r, rise_time=tramp_old, system=old),
+                                                         pp.make_trapezoid('x', amplitude=big / 2, flat_time=30 * r, rise_time=tramp_old, system=old)])),
+            ('rotate', lambda: pp.rotate(pp.make_trapezoid('x', amplitude=big, flat_time=20 * r, rise_time=tramp_old, system=old),
+                                         pp.make_trapezoid('y', amplitude=big, flat_time=30 * r, rise_time=tramp_old, system=old),
+                                         angle=math.pi / 4, axis='z')),
+        ]
+        for site, f in calls:
+            try:
+                out = f()
+            except Exception:  # noqa: BLE001
+                ctx.count('default.%s.raised' % site)
+                continue
+            outs = out if isinstance(out, (list, tuple)) else [out]
+            for g in outs:
+                if getattr(g, 'type', None) in ('trap', 'grad'):
+                    report(ctx, site + '@default', dict(case, call=site), g, r, G, S)
+    finally:
+        old.set_as_default()
+    ctx.evaluated(('default', k, mg_mT, ms_T, raster, big))
 
 
 UNITS = ['Hz/m', 'mT/m', 'rad/ms/mm', 'Hz/m/s', 'mT/m/ms', 'T/m/s', 'rad/ms/mm/ms']
@@ -760,6 +862,9 @@ def run(ctx):
         run_add(ctx, rng, i)
         if i % 3 == 0:
             run_rfgz(ctx, rng, i)
+    drng = ctx.rng('default')
+    for i in range(12 * n):
+        run_default_system(ctx, drng, i)
     run_units(ctx, ctx.rng('units'), 60 * n)
 
 
